@@ -163,7 +163,7 @@ def exhaustive_string(ctx):
 def exhaustive_python(ctx):
     ctx.stratum = "main"
     atoms = []
-    for var, vals in (("python_version", ["3.7", "3.8", "3.9", "3.10", "3", "3.8.0"]),
+    for var, vals in (("python_version", ["3.7", "3.8", "3.9", "3.10", "3", "3.8.0", "4"]),
                       ("python_full_version", ["3.7.9", "3.8.0", "3.8", "3.8.1", "3.9.0"])):
         for v in vals:
             for op in ("==", "!=", "<", "<=", ">", ">="):
@@ -174,8 +174,8 @@ def exhaustive_python(ctx):
                 # python_version has two components: a wildcard below the minor is not a well-defined atom
                 atoms.append(f'{var} == "{v}.*"')
                 atoms.append(f'{var} != "{v}.*"')
-            atoms.append(f'"{v}" < {var}')
-            atoms.append(f'"{v}" >= {var}')
+            for rop in ("<", "<=", ">", ">="):   # literal on the left, every ordering operator
+                atoms.append(f'"{v}" {rop} {var}')
     pairs = list(itertools.product(atoms, repeat=2))
     step = ctx.nshards * (1 if ctx.tier == "thorough" else 4)
     off = ctx.shard + (ctx.seed % 4) * ctx.nshards if ctx.tier == "quick" else ctx.shard
@@ -197,6 +197,11 @@ def exhaustive_python(ctx):
 
     for i in range(off, len(pairs), step):
         x, y = pairs[i]
+        if x.startswith('"') and y.startswith('"'):
+            # both operands literal-first: the merge must not be served from a cache filled by the (equal-comparing)
+            # variable-first pair - nor leave anything behind for it
+            MM.clear_caches()
+            ctx.shape("pair:both-literal-first")
         level1([("and", "or")[i % 2], ["m", x], ["m", y]])
         if ctx.tier == "thorough":
             level1([("or", "and")[i % 2], ["m", x], ["m", y]])
